@@ -168,6 +168,9 @@ CLI_SOURCES = {
     "both": "  nop\n.eseg\n  .dw 0x1234\n.cseg\n  ret\n",
     "eeprom-first": ".eseg\n  .db 9\n.cseg\n  nop\n",
     "code-above-64k": ".org 0x8000\n  nop\n  nop\n.eseg\n .db 7\n",
+    "all-zero": "  nop\n  nop\n.eseg\n .db 0, 0, 0\n",
+    "eeprom-reserved": "  ret\n.eseg\n .byte 9\n",
+    "all-ff": "  .dw 0xffff\n.eseg\n .db 255\n",
 }
 
 
